@@ -82,11 +82,51 @@ def constraints(labels):
 class LazyUsers(dict):
     """label -> list of user labels, materialised from the initial operands on first access."""
 
-    def __init__(self, gate_ops, absent_choice=None):
+    def __init__(self, gate_ops, absent_choice=None, universe=()):
         super().__init__()
         self._gate_ops = [(lab, list(ops)) for lab, ops in gate_ops]
         self._done = set()
         self._absent_choice = absent_choice or {}
+        self._universe = list(universe)
+
+    # whole-dictionary views: everything is materialised first (the index then is an ordinary complete dict)
+    def _all(self):
+        for l in self._universe:
+            self._materialise(l)
+
+    def __iter__(self):
+        self._all()
+        return dict.__iter__(self)
+
+    def __len__(self):
+        self._all()
+        return dict.__len__(self)
+
+    def keys(self):
+        self._all()
+        return dict.keys(self)
+
+    def values(self):
+        self._all()
+        return dict.values(self)
+
+    def items(self):
+        self._all()
+        return dict.items(self)
+
+    def copy(self):
+        self._all()
+        return dict(dict.items(self))
+
+    def __deepcopy__(self, memo):
+        import copy as _copy
+
+        self._all()
+        return _copy.deepcopy(dict(dict.items(self)), memo)
+
+    def __reduce__(self):
+        self._all()
+        return (dict, (dict(dict.items(self)),))
 
     def _materialise(self, label):
         label = plain(label)
@@ -176,7 +216,7 @@ class SymNetlist:
             gate_ops.append((lab, ops))
         c._inputs = list(self.inputs)
         c._outputs = [SymLabel(v, self.nodes) for v in self.out_vars]
-        c._gate_to_users = LazyUsers(gate_ops, self.absent_vars)
+        c._gate_to_users = LazyUsers(gate_ops, self.absent_vars, universe=self.nodes)
         return c
 
     def concrete(self, model):
